@@ -1167,4 +1167,288 @@ theorem switch_normal (c : Cfg) (base : Str) (X Y : Nat) (rX rY : List Str)
   rw [this, normalPath_eq]
   simp only [Spec.localePrefix, Cfg.name]
 
+/-! ### "served by the same route": the localized segments are rewritten -/
+
+/-- `match_path_segments` succeeds exactly on the narrow reading `Spec.servesRowExact` -/
+theorem matchSegs_isSome (row : Row) : ∀ (ss : List Str) (i : Nat) (o0 : List Nat),
+    (matchSegs row ss i o0).isSome = Spec.servesRowExact row ss := by
+  induction row with
+  | nil => intro ss i o0; cases ss <;> simp [matchSegs, Spec.servesRowExact]
+  | cons p ps ih =>
+    intro ss i o0
+    cases ss with
+    | nil => cases p <;> simp [matchSegs, Spec.servesRowExact]
+    | cons seg rest =>
+      cases p with
+      | unit => simp only [matchSegs, Spec.servesRowExact]; exact ih _ _ _
+      | param n => simp only [matchSegs, Spec.servesRowExact]; exact ih _ _ _
+      | optional m =>
+        simp only [matchSegs, Spec.servesRowExact]
+        by_cases h : m = seg
+        · subst h; simp only [if_true]; exact ih _ _ _
+        · have h' : ¬ seg = m := fun e => h e.symm
+          simp only [h, h', if_false]; exact ih _ _ _
+      | static m =>
+        simp only [matchSegs, Spec.servesRowExact]
+        by_cases he : m.isEmpty = true
+        · simp only [he, if_true]; exact ih _ _ _
+        · simp only [he]
+          by_cases h : m = seg
+          · subst h; simp only [if_true, beq_self_eq_true, Bool.true_and]; exact ih _ _ _
+          · have h' : (seg == m) = false := by simp; exact fun e => h e.symm
+            simp [h, h']
+      | splat n => simp [matchSegs, Spec.servesRowExact]
+
+/-- the narrow reading is a special case of the full one -/
+theorem servesRowExact_serves (row : Row) : ∀ (r : List Str),
+    Spec.servesRowExact row r = true → Spec.servesRow row r = true := by
+  induction row with
+  | nil => intro r h; simpa [Spec.servesRowExact, Spec.servesRow] using h
+  | cons p ps ih =>
+    intro r h
+    cases r with
+    | nil => cases p <;> simp [Spec.servesRowExact] at h
+    | cons s tl =>
+      cases p with
+      | unit => simp only [Spec.servesRowExact] at h; simp only [Spec.servesRow]; exact ih _ h
+      | param n => simp only [Spec.servesRowExact] at h; simp only [Spec.servesRow]; exact ih _ h
+      | optional m =>
+        simp only [Spec.servesRowExact] at h
+        simp only [Spec.servesRow, Bool.or_eq_true]
+        split at h
+        · exact Or.inr (ih _ h)
+        · exact Or.inl (ih _ h)
+      | static m =>
+        simp only [Spec.servesRowExact] at h
+        simp only [Spec.servesRow]
+        split
+        · rename_i he; rw [if_pos he] at h; exact ih _ h
+        · rename_i he
+          rw [if_neg he] at h
+          simp only [Bool.and_eq_true] at h ⊢
+          exact ⟨h.1, ih _ h.2⟩
+      | splat n => simp [Spec.servesRow]
+
+/-- Along a route of the old locale that matches, what the same route of the new locale rebuilds is served by
+    that route (in the full reading). -/
+theorem construct_served {rowA : Row} : ∀ {rowB : Row} {ss : List Str} {i : Nat} {o0 o : List Nat} (b : PB),
+    Spec.compatRow rowA rowB = true → (∀ s ∈ ss, Spec.goodSeg s = true) → (∀ k ∈ o0, k < i) →
+    matchSegs rowA ss i o0 = some o →
+    ∃ out, construct rowB ss i o b = .ok (b ++ out) ∧ Spec.servesRow rowB out = true := by
+  induction rowA with
+  | nil =>
+    intro rowB ss i o0 o b hc hs ho hm
+    cases rowB with
+    | cons q qs => simp [Spec.compatRow] at hc
+    | nil =>
+      cases ss with
+      | cons s ss => simp [matchSegs] at hm
+      | nil => exact ⟨[], by simp [construct], by simp [Spec.servesRow]⟩
+  | cons p ps ih =>
+    intro rowB ss i o0 o b hc hs ho hm
+    cases rowB with
+    | nil => simp [Spec.compatRow] at hc
+    | cons q qs =>
+      simp only [Spec.compatRow, Bool.and_eq_true] at hc
+      obtain ⟨hpq, hc'⟩ := hc
+      cases ss with
+      | nil => simp [matchSegs] at hm
+      | cons seg rest =>
+        have hseg : Spec.goodSeg seg = true := hs seg (by simp)
+        have hrest : ∀ s ∈ rest, Spec.goodSeg s = true := fun s h => hs s (by simp [h])
+        have ho1 : ∀ k ∈ o0, k < i + 1 := fun k hk => Nat.lt_succ_of_lt (ho k hk)
+        -- "this element consumes `seg` and pushes `y`"
+        have consume : ∀ (y : Str) (o1 : List Nat), (∀ k ∈ o1, k < i + 1) →
+            matchSegs ps rest (i + 1) o1 = some o →
+            ∃ out', construct qs rest (i + 1) o (b ++ [y]) = .ok (b ++ y :: out') ∧ Spec.servesRow qs out' = true := by
+          intro y o1 ho' hm'
+          obtain ⟨out, h1, h2⟩ := ih (b ++ [y]) hc' hrest ho' hm'
+          exact ⟨out, by rw [h1]; simp, h2⟩
+        cases p with
+        | unit =>
+          cases q <;> simp [Spec.compatSeg] at hpq
+          simp only [matchSegs] at hm
+          obtain ⟨out, h1, h2⟩ := ih b hc' hs ho1 hm
+          exact ⟨out, by simp only [construct]; exact h1, by simp only [Spec.servesRow]; exact h2⟩
+        | param n =>
+          cases q <;> simp [Spec.compatSeg] at hpq
+          simp only [matchSegs] at hm
+          obtain ⟨out, h1, h2⟩ := consume seg o0 ho1 hm
+          exact ⟨seg :: out, by simp only [construct, push_good b hseg]; exact h1,
+            by simp only [Spec.servesRow]; exact h2⟩
+        | optional m =>
+          cases q <;> simp [Spec.compatSeg] at hpq
+          simp only [matchSegs] at hm
+          split at hm
+          · obtain ⟨extra, he, _⟩ := matchSegs_extends hm
+            have hin : o.contains i = true := by rw [he]; simp
+            have ho' : ∀ k ∈ o0 ++ [i], k < i + 1 := by
+              intro k hk; simp at hk; rcases hk with hk | hk
+              · exact ho1 k hk
+              · omega
+            obtain ⟨out, h1, h2⟩ := consume seg (o0 ++ [i]) ho' hm
+            refine ⟨seg :: out, ?_, ?_⟩
+            · simp only [construct]; rw [if_pos hin, push_good b hseg]; exact h1
+            · simp only [Spec.servesRow, Bool.or_eq_true]; exact Or.inr h2
+          · obtain ⟨extra, he, hk⟩ := matchSegs_extends hm
+            have hnin : ¬ (o.contains i = true) := by
+              rw [he]; simp
+              refine ⟨fun h => ?_, fun h => ?_⟩
+              · have := ho i h; omega
+              · have := hk i h; omega
+            obtain ⟨out, h1, h2⟩ := ih b hc' hs ho1 hm
+            refine ⟨out, ?_, ?_⟩
+            · simp only [construct]; rw [if_neg hnin]; exact h1
+            · simp only [Spec.servesRow, Bool.or_eq_true]; exact Or.inl h2
+        | static a =>
+          cases q <;> simp [Spec.compatSeg] at hpq
+          rename_i b'
+          simp only [matchSegs] at hm
+          by_cases ha : a.isEmpty = true
+          · have hb' : b'.isEmpty = true := by
+              rcases hpq with h | h
+              · simpa using h.2
+              · have : Spec.goodSeg a = true := h.1
+                simp [Spec.goodSeg, ha] at this
+            rw [if_pos ha] at hm
+            obtain ⟨out, h1, h2⟩ := ih b hc' hs ho1 hm
+            refine ⟨out, ?_, ?_⟩
+            · simp only [construct]; rw [if_pos hb']; exact h1
+            · simp only [Spec.servesRow]; rw [if_pos hb']; exact h2
+          · have hgood : Spec.goodSeg a = true ∧ Spec.goodSeg b' = true := by
+              rcases hpq with h | h
+              · exact absurd (by simpa using h.1) ha
+              · exact h
+            have hb' : ¬ (b'.isEmpty = true) := by
+              have := hgood.2; simp [Spec.goodSeg] at this; simp [this.1]
+            rw [if_neg ha] at hm
+            split at hm
+            · obtain ⟨out, h1, h2⟩ := consume b' o0 ho1 hm
+              refine ⟨b' :: out, ?_, ?_⟩
+              · simp only [construct]; rw [if_neg hb', push_good b hgood.2]; exact h1
+              · simp only [Spec.servesRow]; rw [if_neg hb']; simp [h2]
+            · simp at hm
+        | splat n =>
+          cases q <;> simp [Spec.compatSeg] at hpq
+          refine ⟨seg :: rest, ?_, by simp [Spec.servesRow]⟩
+          simp only [construct, push_good b hseg, pushAll_good _ hrest]
+          simp
+
+theorem firstMatch_none {ss : List Str} {t : Tables} {pos : Nat} (h : firstMatch ss t pos = none) :
+    ∀ row ∈ t, matchSegs row ss 0 [] = none := by
+  induction t generalizing pos with
+  | nil => simp
+  | cons r rs ih =>
+    simp only [firstMatch] at h
+    split at h
+    · simp at h
+    · rename_i hr
+      intro row hrow
+      simp at hrow
+      rcases hrow with e | e
+      · subst e; exact hr
+      · exact ih h row e
+
+/-- no match by `localize_path` means no route of the old locale serves the segments (narrow reading) -/
+theorem firstMatch_none_serves {ss : List Str} {t : Tables} (h : firstMatch ss t 0 = none) :
+    t.any (fun row => Spec.servesRowExact row ss) = false := by
+  rw [List.any_eq_false]
+  intro row hrow
+  have := firstMatch_none h row hrow
+  rw [← matchSegs_isSome row ss 0 [], this]
+  simp
+
+theorem pairServes_get {tA tB : Tables} {k : Nat} {rowA rowB : Row} {r r' : List Str}
+    (hA : tA[k]? = some rowA) (hB : tB[k]? = some rowB)
+    (h1 : Spec.servesRow rowA r = true) (h2 : Spec.servesRow rowB r' = true) :
+    Spec.pairServes tA tB r r' = true := by
+  induction tA generalizing tB k with
+  | nil => simp at hA
+  | cons a as ih =>
+    cases tB with
+    | nil => simp at hB
+    | cons b bs =>
+      cases k with
+      | zero =>
+        simp at hA hB; subst hA; subst hB
+        simp [Spec.pairServes, h1, h2]
+      | succ k =>
+        simp at hA hB
+        simp [Spec.pairServes, ih hA hB]
+
+/-- with route tables of the same shape: `localize_path` either finds no route — and then no route of the old
+    locale serves the path in the narrow reading — or appends segments that the same route of the new locale serves -/
+theorem localizePath_serves {tA tB : Tables} (hc : Spec.compatTables tA tB = true) (path : Str) (b : PB) :
+    (localizePath path tA tB b = .ok none ∧ tA.any (fun row => Spec.servesRowExact row (segs path)) = false) ∨
+    ∃ out, localizePath path tA tB b = .ok (some (b ++ out)) ∧ Spec.pairServes tA tB (segs path) out = true := by
+  simp only [localizePath]
+  cases hf : firstMatch (segs path) tA 0 with
+  | none => left; exact ⟨rfl, firstMatch_none_serves hf⟩
+  | some po =>
+    obtain ⟨p, o⟩ := po
+    right
+    obtain ⟨k, rowA, hk, hrow, hm⟩ := firstMatch_spec hf
+    have hk' : p = k := by omega
+    subst hk'
+    obtain ⟨rowB, hB, hcr, _⟩ := compatTables_get hc hrow
+    obtain ⟨out, h1, h2⟩ := construct_served b hcr (segs_all_good path) (by simp) hm
+    refine ⟨out, by simp [hB, h1], ?_⟩
+    refine pairServes_get hrow hB (servesRowExact_serves _ _ ?_) h2
+    rw [← matchSegs_isSome rowA (segs path) 0 [], hm]; rfl
+
+/-- `newPathname_spec` with the strong judgement on the remaining segments added -/
+theorem newPathname_spec_strong (path base newName : Str) (newIsDefault : Bool) (oldName : Option Str)
+    (oldT newT : Option Tables) (hnew : Spec.goodSeg newName = true) (hold : ∀ l, oldName = some l → l ≠ [])
+    (hc : Spec.compatOpt oldT newT = true) (rest : Str) (hs : stripBasePath path base = some rest) :
+    ∃ p r', newPathname path base newName newIsDefault oldName oldT newT = .ok p ∧
+      segs p = segs base ++ (if newIsDefault then [] else [newName]) ++ r' ∧
+      Spec.onlyLocalizedChanged oldT newT (restSegs oldName (segs rest)) r' = true ∧
+      Spec.sameRouteServesOpt Spec.servesRowExact oldT newT (restSegs oldName (segs rest)) r' = true := by
+  generalize hb1 : baseBuilder base newName newIsDefault = b1
+  have hb1s : b1.flatMap segs = segs base ++ (if newIsDefault then [] else [newName]) := by
+    subst hb1
+    cases newIsDefault
+    · simp [baseBuilder, flatMap_segs_push, flatMap_segs_new, segs_good hnew]
+    · simp [baseBuilder, flatMap_segs_push, flatMap_segs_new]
+  generalize hr1 : stripLocale rest oldName = rest1
+  have hr1s : segs rest1 = restSegs oldName (segs rest) := by
+    subst hr1
+    cases oldName with
+    | none => simp [restSegs, stripLocale]
+    | some l =>
+      simp only [stripLocale]
+      rw [segs_rest1 rest l (hold l rfl)]
+      cases segs rest <;> simp [restSegs]
+  -- the path is copied: fine whenever no route of the old locale serves it
+  have unloc : Spec.sameRouteServesOpt Spec.servesRowExact oldT newT (segs rest1) (segs rest1) = true →
+      ∃ p r', Outcome.ok (PB.build (b1.push rest1)) = .ok p ∧
+      segs p = segs base ++ (if newIsDefault then [] else [newName]) ++ r' ∧
+      Spec.onlyLocalizedChanged oldT newT (restSegs oldName (segs rest)) r' = true ∧
+      Spec.sameRouteServesOpt Spec.servesRowExact oldT newT (restSegs oldName (segs rest)) r' = true := fun hsame =>
+    ⟨_, segs rest1, rfl, by rw [segs_build, flatMap_segs_push, hb1s],
+      by rw [hr1s]; exact onlyLocalizedChanged_refl _ _ _, by rw [← hr1s]; exact hsame⟩
+  simp only [newPathname, hs, hb1, hr1]
+  cases oldT with
+  | none => exact unloc (by simp [Spec.sameRouteServesOpt])
+  | some o =>
+    cases newT with
+    | none => exact unloc (by simp [Spec.sameRouteServesOpt])
+    | some n =>
+      simp only
+      have hct : Spec.compatTables o n = true := by simpa [Spec.compatOpt] using hc
+      rcases localizePath_serves hct rest1 b1 with ⟨h, hno⟩ | ⟨out, h, hserv⟩
+      · rw [h]
+        exact unloc (by simp [Spec.sameRouteServesOpt, Spec.sameRouteServesIf, hno])
+      · rcases localizePath_compat hct rest1 b1 with h' | ⟨out', h', hg, hrel⟩
+        · rw [h] at h'; simp at h'
+        · rw [h] at h'
+          simp only [Outcome.ok.injEq, Option.some.injEq] at h'
+          have hout : out = out' := List.append_cancel_left h'
+          subst hout
+          rw [h]
+          refine ⟨_, out, rfl, ?_, by rw [← hr1s]; exact hrel, ?_⟩
+          · rw [segs_build, List.flatMap_append, hb1s, flatMap_segs_good hg]
+          · rw [← hr1s]
+            simp [Spec.sameRouteServesOpt, Spec.sameRouteServesIf, hserv]
+
 end I18nVerif.Router
